@@ -91,10 +91,20 @@ func (c *Context) AbortWithStatus(code int, msg ...string) {
 
 // Next processing, run all handlers
 func (c *Context) Next() {
-	c.index++
 	s := int8(len(c.handlers))
+	// the chain is finished or aborted: nothing left to run. Don't move the index.
+	if c.index >= s {
+		return
+	}
+
+	c.index++
 	for ; c.index < s; c.index++ {
 		c.handlers[c.index](c)
+		// the handler has run the rest of the chain (by a nested Next) or aborted it.
+		// keep the index at len(handlers)/abortIndex: it must not climb on each unwound level.
+		if c.index >= s {
+			return
+		}
 	}
 }
 
